@@ -116,6 +116,10 @@ var FieldDeepEqualContainer = `
 	}
 	{{- $src := .GenID "_src"}}
 	{{- $ctx := (.ValCtx.WithTarget "v").WithSource $src}}
+	{{- if and .ValCtx.Type.Category.IsStructLike Features.ValueTypeForSIC}}
+	{{- /* struct-like elements are values: DeepEqual takes a pointer */}}
+	{{- $ctx = $ctx.WithSource (printf "&%s" $src)}}
+	{{- end}}
 	{{- if eq .Type.Category.String "Map" }}
 	{{- if .KeyCtx.Type.Category.IsStructLike}}
 	{{- /* struct-like keys are pointers: find the equal key by value, not by identity */}}
